@@ -16,6 +16,10 @@ import (
 	hessian "github.com/apache/dubbo-go-hessian2"
 	"github.com/apache/thrift/lib/go/thrift"
 
+	"mosn.io/api"
+	"mosn.io/mosn/pkg/stream"
+	"mosn.io/pkg/buffer"
+
 	"verif/harness/lab"
 )
 
@@ -435,6 +439,13 @@ func genBoltHeaders(rng *lab.Rand, maxBlock int) [][2][]byte {
 }
 
 func genFrame(rng *lab.Rand, codecName string, maxBody int) refFrame {
+	return genFrameID(rng, codecName, maxBody, nil)
+}
+
+func thriftType(i int) thrift.TMessageType { return thrift.TMessageType(i) }
+
+// genFrameID is genFrame with an optional forced request id (used for variable-width id fields).
+func genFrameID(rng *lab.Rand, codecName string, maxBody int, forceID *uint64) refFrame {
 	kind := []int{kindRequest, kindRequest, kindOneway, kindResponse, kindResponse, kindHeartbeat, kindHeartbeatAck}[rng.Intn(7)]
 	rf := refFrame{Codec: codecName, Kind: kind, IDOff: -1}
 	switch codecName {
@@ -540,6 +551,9 @@ func genFrame(rng *lab.Rand, codecName string, maxBody int) refFrame {
 			rf.Kind = kind
 		}
 		id := int32(genID(rng, 31))
+		if forceID != nil {
+			id = int32(*forceID)
+		}
 		body := rng.Bytes(genLen(rng, maxBody))
 		ctx := map[string]string{}
 		for i := rng.Intn(4); i > 0; i-- {
@@ -564,4 +578,66 @@ func genFrame(rng *lab.Rand, codecName string, maxBody int) refFrame {
 		rf.Desc = fmt.Sprintf("tars kind=%d id=%d body=%d frame=%d", kind, id, len(body), len(rf.Raw))
 	}
 	return rf
+}
+
+// decodeOne runs the real decoder on a fresh IoBuffer holding exactly `raw` (+ optional trailing bytes), the way
+// connection.doRead + streamConn.Dispatch present it. It returns the frame, the source buffer and its backing array.
+func decodeOne(cm *stream.ContextManager, p api.XProtocol, raw []byte, trailing []byte) (api.XFrame, context.Context, buffer.IoBuffer, []byte, error) {
+	src := make([]byte, len(raw)+len(trailing), len(raw)+len(trailing)+64)
+	copy(src, raw)
+	copy(src[len(raw):], trailing)
+	buf := buffer.NewIoBufferBytes(src)
+	cm.Next()
+	ctx := cm.Get()
+	fr, err := p.Decode(ctx, buf)
+	if err != nil {
+		return nil, ctx, buf, src, err
+	}
+	if fr == nil {
+		return nil, ctx, buf, src, nil
+	}
+	xf, ok := fr.(api.XFrame)
+	if !ok {
+		return nil, ctx, buf, src, fmt.Errorf("decoded object %T is not an XFrame", fr)
+	}
+	return xf, ctx, buf, src, nil
+}
+
+func firstDiff(a, b []byte) int {
+	n := len(a)
+	if len(b) < n {
+		n = len(b)
+	}
+	for i := 0; i < n; i++ {
+		if a[i] != b[i] {
+			return i
+		}
+	}
+	if len(a) != len(b) {
+		return n
+	}
+	return -1
+}
+
+func lenClass(n int) string {
+	switch {
+	case n == 0:
+		return "0"
+	case n < 255:
+		return "<255"
+	case n <= 257:
+		return "255-257"
+	case n < 65535:
+		return "<65535"
+	case n <= 65537:
+		return "65535-65537"
+	}
+	return ">65537"
+}
+
+func truncate(s string, n int) string {
+	if len(s) > n {
+		return s[:n]
+	}
+	return s
 }
